@@ -46,10 +46,20 @@ theorem C17_insert_balanced (full : Bool) (sh : Shape) (failAt : Nat) :
     (∀ o arr, gained = some (o, arr) → arr.isSome = full) :=
   insert_summary failAt full sh
 
+/-- cif_value_set_element_at (clone into the EXISTING element object; the source marks this path "TODO: check safety in
+    case of failure"), every element shape, every fault position: no double / invalid free; on failure nothing
+    allocated in the call stays live (and the target object itself is never released); on success exactly the blocks
+    the target gained are live; CIF_OK exactly when no request failed. -/
+theorem C17_set_element_balanced (sh : Shape) (failAt : Nat) :
+    let (rc, gained, st) := setElement failAt sh
+    Balanced st.evs (match gained with | some g => g | none => []) ∧
+    (rc = OK ∨ rc = MEMORY_ERROR) ∧ (rc = OK ↔ gained.isSome) ∧ (rc = OK ↔ NoFail st.evs) :=
+  set_summary failAt sh
+
 /-- the fault position is reached iff it is one of the allocation requests of the fault-free run
     (1 ≤ failAt ≤ their number); then exactly one `fail` event occurs — the request number `failAt` — and it is the
     last request of the call (the ladders only release afterwards); otherwise the run makes the same number of
-    requests as the fault-free run.  For all three ladders. -/
+    requests as the fault-free run.  For all four ladders. -/
 theorem C17_fault_reached_iff (failAt : Nat) :
     (∀ n, let st := (dupUstrings failAt n).2.2
           (¬ NoFail st.evs ↔ 1 ≤ failAt ∧ failAt ≤ (dupUstrings 0 n).2.2.count) ∧
@@ -62,10 +72,15 @@ theorem C17_fault_reached_iff (failAt : Nat) :
     (∀ full sh, let st := (insertElement failAt full sh).2.2
           (¬ NoFail st.evs ↔ 1 ≤ failAt ∧ failAt ≤ (insertElement 0 full sh).2.2.count) ∧
           (¬ NoFail st.evs → failIds st.evs = [failAt] ∧ st.count = failAt) ∧
-          (NoFail st.evs → st.count = (insertElement 0 full sh).2.2.count)) :=
+          (NoFail st.evs → st.count = (insertElement 0 full sh).2.2.count)) ∧
+    (∀ sh, let st := (setElement failAt sh).2.2
+          (¬ NoFail st.evs ↔ 1 ≤ failAt ∧ failAt ≤ (setElement 0 sh).2.2.count) ∧
+          (¬ NoFail st.evs → failIds st.evs = [failAt] ∧ st.count = failAt) ∧
+          (NoFail st.evs → st.count = (setElement 0 sh).2.2.count)) :=
   ⟨fun n => fault_of_outcomes (dup_outcome 0 n) (dup_outcome failAt n),
    fun sh => fault_of_outcomes (clone_outcome 0 sh) (clone_outcome failAt sh),
-   fun full sh => fault_of_outcomes (insert_outcome 0 full sh) (insert_outcome failAt full sh)⟩
+   fun full sh => fault_of_outcomes (insert_outcome 0 full sh) (insert_outcome failAt full sh),
+   fun sh => fault_of_outcomes (set_outcome 0 sh) (set_outcome failAt sh)⟩
 
 -- ---------------------------------------------------------------------------------------------------------------
 -- non-vacuity: concrete runs in which a request really fails and blocks really are released
@@ -104,6 +119,15 @@ example : (insertElement 5 true (.lst [.chr])).1 = MEMORY_ERROR ∧
 
 /-- the fault position 5 is beyond the 4 requests of the non-full insertion: not reached, CIF_OK -/
 example : (insertElement 5 false (.lst [.chr])).1 = OK ∧ (insertElement 0 false (.lst [.chr])).2.2.count = 4 := by decide
+
+/-- replacing an element by `[ 1.5(2) 'a' ]` (7 requests: array, two element objects, 3 + 1 component blocks); the
+    5th request (su_digits of the number) fails: digits, text, the element object and the new array are released, the
+    target object is not (it is not a block of the window at all) -/
+example : (setElement 0 (.lst [.numb true, .chr])).2.2.count = 7 ∧
+    (setElement 5 (.lst [.numb true, .chr])).1 = MEMORY_ERROR ∧
+    (setElement 5 (.lst [.numb true, .chr])).2.2.evs =
+      [.alloc 1, .alloc 2, .alloc 3, .alloc 4, .fail 5, .free 4, .free 3, .free 2, .free 1] ∧
+    final (setElement 5 (.lst [.numb true, .chr])).2.2.evs = some [] := by decide +kernel
 
 /-- the specification is not trivially satisfiable: a double free, a free of a block never obtained and a leak are
     all rejected -/
